@@ -282,6 +282,26 @@ fn run_case(mode: &str, t: &mut Toks) -> Result<String, String> {
             }
             Err(e) => err_line(&e),
         }),
+        "value2" => Ok(match merge_layers(t)? {
+            Ok(m) => {
+                let mut v = Value::Mapping(m);
+                match v.render_with_self() {
+                    Ok(()) => {
+                        let mut o = String::from("ok ");
+                        canon(&v, false, &mut o);
+                        o.push_str(" || ");
+                        let mut v2 = v.clone();
+                        match v2.render_with_self() {
+                            Ok(()) => canon(&v2, false, &mut o),
+                            Err(e) => o.push_str(&err_line(&format!("{e}"))),
+                        }
+                        o
+                    }
+                    Err(e) => err_line(&format!("{e}")),
+                }
+            }
+            Err(e) => err_line(&e),
+        }),
         "token" => {
             let s = t.string()?;
             Ok(match hooks::token_parse(&s) {
